@@ -144,9 +144,10 @@ namespace sim
       RC cls = RC::OTHER;
       bool enable = false;  // control hooks enabled for this rule under sim_control
       int p0 = -1, p1 = -1;  // first two integer template parameters (node index, N of limits, ...)
+      int sel = -1;          // parse tree selector kind under sim_selector (-1 = not selected)
    };
 
-   std::uint32_t register_rule( std::string_view name, bool enable );
+   std::uint32_t register_rule( std::string_view name, bool enable, int sel );
 
    // ---------------------------------------------------------------- faults
    enum Site : std::uint8_t
